@@ -153,6 +153,7 @@ func (db *DB) updateWriteTxnPoolLocked(numTables int) {
 }
 
 func (db *DB) registerTable(table TableMeta) error {
+	verifHook("register-before-lock")
 	db.mu.Lock()
 	defer db.mu.Unlock()
 	verifHook("register-locked")
